@@ -88,3 +88,17 @@ def aliases_of(fn, source_texts):
                         names.add(t.id)
                         changed = True
     return names
+
+
+def tex_name(model, cls):
+    """TeX name of a macro class: its macroName constant or the class name."""
+    v = model.class_const(cls, 'macroName')
+    if isinstance(v, str):
+        return v
+    return cls.name
+
+
+def macro_classes(model):
+    """All classes of the package that derive from plasTeX.Macro."""
+    base = model.cls('plasTeX', 'Macro')
+    return model.subclasses(base)
